@@ -416,6 +416,68 @@ def enumerate_tail(acc, index, part, parts, window):
         'enumerated_schedules', 0) + count
 
 
+# ---- a stop aimed at the job the controller has just made current ---------------------
+def fresh_scenario(stop):
+    return {'population': POP, 'shape': 'straight', 'tick': 0.25,
+            'work': {'set_power': 0.125}, 'start': [7, 58, 30],
+            'scripts': {'first': 'on "L1"', 'second': SHAPES['straight']
+                        .replace('L1', 'L2'), 'bg': BACKGROUND},
+            'clients': [[['add', 'first'], ['add', 'second'],
+                         ['await_current', 'second'], [stop],
+                         ['wait_idle', 40]]]}
+
+
+def check_fresh(acc, stop, schedule):
+    """Once the controller reports `second` as running, a stop-current /
+    stop-all stops it: at most the command in progress is still sent."""
+    scenario = fresh_scenario(stop)
+    preemptions = {int(k): v for k, v in schedule['preemptions'].items()}
+    result = conc.run(scenario, preemptions, list(schedule['choices']),
+                      step_limit=40000)
+    log = result.sched.log
+    if result.outcome == 'harness-timeout':
+        raise env.HarnessError(str(result.sched.detail))
+    seen = next((e for e in log if e[3] == 'ret' and
+                 e[5][0] == 'await_current'), None)
+    stop_ret = next((i for i, e in enumerate(log) if e[3] == 'ret'
+                     and e[5][0] == stop), None)
+    inside = [p for p in result.sched.preemptions_taken
+              if p[3] and p[3][0] == 'job_control.py']
+    acc.case(key=repr(('fresh', stop, schedule)), nontrivial=bool(inside),
+             labels=['enumerated', 'stop-on-job-just-made-current',
+                     'stop:' + stop])
+    if result.outcome != 'finished' or seen is None or seen[6] is not True \
+            or stop_ret is None:
+        if result.outcome not in ('finished', 'step-limit'):
+            acc.fail('fresh:' + result.outcome, str(result.sched.detail),
+                     {'kind': 'fresh', 'stop': stop, 'schedule': schedule})
+        return result
+    later = [e for e in log[stop_ret:] if e[3] == 'cmd' and e[4] == 'L2']
+    if len(later) > 1:
+        acc.fail('stop-lost-on-job-just-made-current',
+                 'the controller reported `second` as running, {} was then '
+                 'called (returned {!r}), and `second` still sent {} more '
+                 'commands\nschedule {}'.format(
+                     stop, log[stop_ret][6], len(later), schedule),
+                 {'kind': 'fresh', 'stop': stop, 'schedule': schedule})
+    return result
+
+
+def enumerate_fresh(acc, stop, part, parts):
+    base = check_fresh(acc, stop, {'preemptions': {}, 'choices': []})
+    # the steps in which the first job's thread hands over to the second
+    end = next(e[1] for e in base.sched.log if e[3] == 'job-end')
+    count = 0
+    for number, (s, t) in enumerate(
+            (s, t) for s in range(end - 10, end + 90) for t in range(3)):
+        if number % parts != part:
+            continue
+        check_fresh(acc, stop, {'preemptions': {str(s): t}, 'choices': []})
+        count += 1
+    acc.extra['enumerated_schedules'] = acc.extra.get(
+        'enumerated_schedules', 0) + count
+
+
 def plan(tier, seed_value):
     specs = []
     per = 2500 if tier == 'thorough' else 300
@@ -427,6 +489,10 @@ def plan(tier, seed_value):
             for part in range(8):
                 specs.append({'kind': 'enumerate', 'index': index,
                               'part': part, 'parts': 8, 'depth': 1})
+    for stop in ('stop_current', 'stop_all'):
+        for part in range(4):
+            specs.append({'kind': 'fresh', 'stop': stop, 'part': part,
+                          'parts': 4})
     for index in RACE_WITH_END:
         for part in range(4):
             specs.append({'kind': 'tail', 'index': index, 'part': part,
@@ -437,6 +503,9 @@ def plan(tier, seed_value):
 
 def run_shard(spec):
     acc = Acc()
+    if spec['kind'] == 'fresh':
+        enumerate_fresh(acc, spec['stop'], spec['part'], spec['parts'])
+        return acc
     if spec['kind'] == 'tail':
         enumerate_tail(acc, spec['index'], spec['part'], spec['parts'],
                        spec['window'])
@@ -461,5 +530,8 @@ def run_shard(spec):
 
 def replay(case):
     acc = Acc()
+    if case.get('kind') == 'fresh':
+        check_fresh(acc, case['stop'], case['schedule'])
+        return [(f['sig'], f['what']) for f in acc.failures.values()]
     check(acc, case['scenario'], case['schedule'], 'replay')
     return [(f['sig'], f['what']) for f in acc.failures.values()]
